@@ -464,18 +464,31 @@ def check_polynomial_algebra(r, repo, tier, rule="R16.6"):
                 tot = tot + prod * xpow(i)
             ob(f"rpolynomial (len {n}, reverse={rev})", isinstance(got, Poly) and got == tot, "the value differs from the polynomial whose coefficient ratios are given")
     # division: symbolic dividend (generic coefficients), concrete divisors
+    def eff_len(cs, rev):
+        """number of coefficients up to the highest-order non-zero one"""
+        cs = list(reversed(cs)) if rev else list(cs)
+        while cs and (cs[-1] == 0 if not isinstance(cs[-1], Poly) else not cs[-1].t):
+            cs.pop()
+        return len(cs)
+
     for rev in (False, True):
-        for D in ([3, -2, 5], [1, 0, 2], [7], [2, 1], [Fraction(1, 2), 0, 0, 3]):
-            for n in (1, 2, 3, 4, 5, 6):
-                P = syms("p", n)
-                got = call("divmod", P, list(D), reverse=rev)
-                okd = False
-                detail = f"divmod returned {got!r}"
-                if isinstance(got, tuple) and len(got) == 2 and isinstance(got[0], list) and isinstance(got[1], list):
-                    Qc, Rc = got
-                    okd = denote(P, rev) == denote(Qc, rev) * denote(D, rev) + denote(Rc, rev) and len(Rc) < len(D)
-                    detail = f"P != Q*D + R or deg R >= deg D (len Q = {len(Qc)}, len R = {len(Rc)})"
-                ob(f"divmod (len {n} by {D}, reverse={rev})", okd, detail)
+        for D0 in ([3, -2, 5], [1, 0, 2], [7], [2, 1], [Fraction(1, 2), 0, 0, 3]):
+            # the divisor as given, and padded with zeros at its high-order end (the same polynomial)
+            for pad in (0, 2):
+                D = (list(D0) + [0] * pad) if not rev else ([0] * pad + list(reversed(D0)))
+                for n in (1, 2, 3, 4, 5, 6):
+                    P = syms("p", n)
+                    got = call("divmod", P, list(D), reverse=rev)
+                    okd = False
+                    detail = f"divmod returned {got!r}"
+                    if isinstance(got, tuple) and len(got) == 2 and isinstance(got[0], list) and isinstance(got[1], list):
+                        Qc, Rc = got
+                        ident = denote(P, rev) == denote(Qc, rev) * denote(D, rev) + denote(Rc, rev)
+                        degs = eff_len(Rc, rev) < eff_len(D, rev)
+                        okd = ident and degs
+                        detail = ("P != Q*D + R" if not ident else f"deg R >= deg D: {eff_len(Rc, rev)} remainder coefficient(s) against a divisor of "
+                                  f"{eff_len(D, rev)} (the divisor is given with {pad} zero coefficient(s) at its high-order end)")
+                    ob(f"divmod (len {n} by {D}, reverse={rev})", okd, detail)
     # every evaluation scheme of fast_polynomial, degrees 0..N
     maxdeg = 12 if tier == "quick" else 24
     schemes = [None] + [repo.func(rel, nm) for nm in ("canonical_scheme", "horner_scheme", "estrin_dac_scheme", "balanced_dac_scheme")]
